@@ -96,6 +96,7 @@ structure InitInv (votes : Profile) (a0 : Alloc) : Prop where
   rests : RestsOK a0
   cont_eq : continuing a0 = allRanked votes
   grow : WFVotes votes → ∀ c ∈ allRanked votes, pileTotal (votes.filter (firstIs c)) ≤ totalOf a0 c
+  ballots : BallotsFrom (votes.map (·.1)) a0
 
 theorem init_inv {E : Engine} (hE : EngineOK E) {votes : Profile} {ds ds' : List Draw} {a0 : Alloc}
     (h : initialAllocation E votes ds = .ok (a0, ds')) : InitInv votes a0 := by
@@ -107,14 +108,20 @@ theorem init_inv {E : Engine} (hE : EngineOK E) {votes : Profile} {ds ds' : List
     unfold KeysNodup
     rw [allocKeys_firstPrefs]
     exact (allRanked_nodup votes).map (fun _ _ h => by injection h)
-  refine ⟨?_, hs.keys hk0, ?_, ?_, by rw [hs.cont_eq, continuing_firstPrefs], ?_⟩
-  rotate_right
+  refine ⟨?_, hs.keys hk0, ?_, ?_, by rw [hs.cont_eq, continuing_firstPrefs], ?_, ?_⟩
+  rotate_right 2
   · intro hwf c hc
     have hmem : (some c, votes.filter (firstIs c)) ∈ firstPrefs votes :=
       List.mem_map.mpr ⟨c, hc, rfl⟩
     have := hs.grow (fun x hx => hwf x (List.mem_filter.mp hx).1) (some c)
     rw [allocPile_of_mem hk0 hmem] at this
     exact this
+  · intro hp hhp x hx
+    rcases hs.entry hp hhp x hx with ⟨hp', hm', _, hxx'⟩ | ⟨bw, hbw, h3, _⟩
+    · unfold firstPrefs at hm'
+      obtain ⟨c, _, rfl⟩ := List.mem_map.mp hm'
+      exact List.mem_map.mpr ⟨x, (List.mem_filter.mp hxx').1, rfl⟩
+    · exact List.mem_map.mpr ⟨bw, (List.mem_filter.mp hbw).1, h3.symm⟩
   · rw [hs.held_eq, held_firstPrefs]
     exact split_first votes (allRanked_nodup votes) (fun bw hbw c rest he => first_mem_allRanked hbw he)
   · intro hwf
@@ -289,6 +296,7 @@ structure StInv (cfg : Cfg) (inp : Input) (st : St) : Prop where
     held st.alloc + emptyWeight inp.votes + runQuota cfg inp * (st.byQuota : Rat) = totalVotes inp.votes
   nonneg : WFVotes inp.votes → st.final = false → NonNeg st.alloc
   rests : st.final = false → RestsOK st.alloc
+  ballots : st.final = false → BallotsFrom (inp.votes.map (·.1)) st.alloc
   cont_sub : ∀ c ∈ continuing st.alloc, c ∈ allRanked inp.votes
 
 theorem initState_inv {E : Engine} (hE : EngineOK E) {cfg : Cfg} {inp : Input} {ds : List Draw} {st : St}
@@ -300,7 +308,7 @@ theorem initState_inv {E : Engine} (hE : EngineOK E) {cfg : Cfg} {inp : Input} {
     injection h with h; subst h
     have hi := init_inv hE hinit
     refine ⟨⟨(by intro hc; cases hc), fun _ => hi.keys, fun _ => ?_, fun hw _ => hi.nonneg hw, fun _ => hi.rests,
-      fun c hc => (by rw [hi.cont_eq] at hc; exact hc)⟩, rfl, rfl, rfl⟩
+      fun _ => hi.ballots, fun c hc => (by rw [hi.cont_eq] at hc; exact hc)⟩, rfl, rfl, rfl⟩
     simp only [Nat.cast_zero, mul_zero, add_zero]
     exact hi.held_eq
 
@@ -322,7 +330,7 @@ theorem step_inv {E : Engine} (hE : EngineOK E) {cfg : Cfg} {inp : Input} {st st
         obtain ⟨_, _, _, _, _, _, h5⟩ := afterElection_inv hout; rw [h5] at hsc; cases hsc
       | elimination hout =>
         obtain ⟨_, _, _, _, _, h5⟩ := afterElimination_inv hout; rw [h5] at hsc; cases hsc
-    refine ⟨?_, ?_, ?_, ?_, ?_, ?_⟩
+    refine ⟨?_, ?_, ?_, ?_, ?_, ?_, ?_⟩
     · intro _
       simp only [advance, sumSeats_seatsAdd]
       cases hcase with
@@ -338,7 +346,7 @@ theorem step_inv {E : Engine} (hE : EngineOK E) {cfg : Cfg} {inp : Input} {st st
   | false =>
     have hc := count_inv hE (hi.keys hfin) hnext hsc
     refine ⟨?_, fun _ => hc.keys, fun _ => ?_, fun hw _ => hc.nonneg (hi.nonneg hw hfin),
-      fun _ => hc.rests (hi.rests hfin), ?_⟩
+      fun _ => hc.rests (hi.rests hfin), fun _ => hc.ballots _ (hi.ballots hfin), ?_⟩
     · intro hf; simp only [advance, hsc] at hf; cases hf
     · simp only [advance, hsc, Bool.false_eq_true, if_false]
       have h1 := hi.cons hfin
